@@ -86,13 +86,21 @@ CHECKS = [
   "all applicable histories of length <=4 (thorough 5) over {append integer / non-integer line to log a or b, append a fragment, write p.mtail as ok / runtime-error-raising / non-compiling / unregistrable version and reload, remove p.mtail and reload, poll} on the whole pipeline wired by mtail.New in tailing mode under the controlled scheduler, with and without a second program; after every step lines_total, log_lines_total per log, log_count, prog_runtime_errors_total, prog_loads_total, prog_unloads_total, prog_load_errors_total per program moved by exactly the number of such events in the history",
   "default schedule with quiescence barriers; counters read as deltas; reload = LoadAllPrograms called directly",
   "explicit-state exploration of the implementation over operation histories (multi-process BFS, replay from the initial state, event-count reference model)", "§3 C25"),
+ ("C01", "mtlgen", "exploration",
+  "every program of the typed families {every binary operator between 10 typed atoms (int/float literals, typed captures, metric reads) in 4 placements (assignment, +=, condition, index), relational, logical incl. short circuit with an erroring operand, string expressions and builtins (len tolower string int float strtol subst), operator-pair precedence with both parenthesisations, control-flow trees (nested conditionals, else, otherwise also inside else and after nested blocks, stop; a distinct trace counter per leaf), decorators with next at every position applied once/twice/nested, declarations x operations (counter/gauge, hidden, 0-2 keys, int/float; ++ -- += = del del-after read-back), effect;runtime-error;effect for 8 error kinds} (about 5 100 programs quick, 12 300 thorough) x every line sequence of length <=2 (thorough 3) over the family's alphabet: real compiler+VM against an independent reference interpreter after every line (store contents incl. label sets and expiry marks, runtime-error behaviour); plus 12 forms written as docs/Language.md shows them must be accepted",
+  "the reference interpreter's choices where the language reference is silent are listed in engine/mtl/ASSUMPTIONS.md; timestamps are C07's subject",
+  "exhaustive bounded program and input enumeration against an independent reference interpreter", "§3 C01"),
+ ("C04", "mtlgen", "exploration",
+  "every compiler-accepted program among: the typed families of C01; statements in context (every binary operator between 14 atoms, unary forms, constant trees, every builtin with 0-3 arguments from 17 argument forms) x 3 (thorough 5) placements (about 45 000 accepted quick, 106 000 thorough); 5 accepted-but-odd programs; the example programs over the first 60 lines of every test log; each run over its line alphabet twice with HardCrash set: no panic, and every runtime error is one of the VM's explicit checked conditions (message classes)",
+  "dynamic check only: the static abstract interpretation of the emitted bytecode planned in DESIGN.md §3 C04 is not built; faults are classified by error message",
+  "exhaustive bounded program and input enumeration on the real compiler and VM with a fault classifier", "§3 C04"),
 ]
 
 ENGINES = [
  {"name": "seqx", "path": "engine/seqx", "kind_free_text": "bounded exhaustive enumeration of inputs and explicit-state BFS over operation histories of sequential code against reference models; every transition executes the real code"},
  {"name": "gosim", "path": "engine/vrt + engine/instrument", "kind_free_text": "source-level instrumentation (sync, atomic, go, channel operations, select) + cooperative controlled scheduler + stateless DFS with iterative preemption bounding over the real mtail code"},
  {"name": "hsx", "path": "engine/hsx + engine/vrt", "kind_free_text": "multi-process explicit-state BFS over operation histories of real mtail components running under the gosim scheduler (quiescence barrier after every step); every transition replays the history on a fresh instance in a worker process; states de-duplicated on observable state plus a reflective dump of the implementation object graph"},
- {"name": "mtlgen", "path": "engine/mtlgen + engine/refsem", "kind_free_text": "exhaustive typed program enumerator and an independent reference interpreter for the mtail language"},
+ {"name": "mtlgen", "path": "engine/mtl + harness/shared/ctxgen", "kind_free_text": "exhaustive typed program enumerator and an independent reference interpreter for the mtail language"},
 ]
 
 def main():
